@@ -161,6 +161,13 @@ Proof.
   apply blossom. exact Hn.
 Qed.
 
+(* C20 / C02 (coincident segments): two sub-arcs whose specialized nets are EQUAL are the same curve, point for point *)
+Theorem equal_specializations_coincide v1 v2 a1 b1 a2 b2 s : (2 <= length v1)%nat -> (2 <= length v2)%nat ->
+  specialize K v1 a1 b1 = specialize K v2 a2 b2 ->
+  bernstein K v1 (1 - ((1 - s) * a1 + s * b1)) ((1 - s) * a1 + s * b1)
+  = bernstein K v2 (1 - ((1 - s) * a2 + s * b2)) ((1 - s) * a2 + s * b2).
+Proof. intros H1 H2 E. rewrite <- !specialize_correct by assumption. rewrite E. reflexivity. Qed.
+
 (* ---- helpers on dot ---- *)
 Lemma dot_app_zeros w k : forall v, dot K (w ++ repeat 0 k) v = dot K w v.
 Proof.
